@@ -65,6 +65,11 @@ CHECKS = {
         text="Recording ServerProtocol/ClientProtocol objects sit on the real transport.TarsServer and transport.TarsClient loops and record the framing layer's output in order plus every buffer length shown (the read partitions that really occurred); a scripted peer sends packet sequences (1..200 packets, sizes around every boundary incl. max-1 and max) split as single bytes, inside the 4-byte prefix, at packet boundaries +-1, coalesced, randomly, with different pacing, for max-length settings 64/4096/1MiB/10MiB and pool 0/1. Recorded sequence must equal the sent sequence byte for byte and the handler copies must be a permutation; illegal prefixes (0,1,3,max+1,2^31,2^32-1) must close that connection only after the earlier packets were delivered, with a bystander connection unaffected; on the client a broken connection must be followed by a correctly framed new one.",
         note="Kernel coalescing decides the receiver's read boundaries; the evidence reports the observed buffer-length sequences. MaxPackageLength is process-global, so settings run one after another.",
         design="DESIGN.md §4 C07"),
+    "C12": dict(
+        technique="runtime monitor: gate-controlled recording ServerProtocol on the real TarsServer, raw pipelining clients, logical-clock stamps, response/notice/return-time oracles",
+        text="A real transport.TarsServer runs a monitor-owned protocol that stamps each request when the framing layer has read it, blocks every handler on a gate and marks one-way requests; raw clients pipeline requests over 1..32 connections so that running, pool-queued and framed-not-started requests exist at the Shutdown call by construction; gate scripts (at once after 0 / 1.3 s, one by one, after the close notice, some never) and clients reset while their requests execute. Every request read before the Shutdown call whose gate opened must be answered exactly once before EOF (one-way: executed, not answered), every live connection must get the reconnect notice, Shutdown must return after the drain (not at its context) and by its context otherwise; pools 0/1/4.",
+        note="Timing comes from the server's own pollers (500 ms tickers, 2 s idle rule); verdicts on the return time use the context deadline and a 2 s slack. With never-opened gates only requests that started are judged.",
+        design="DESIGN.md §4 C12"),
 }
 
 NOT_BUILT_REASON = "check not built yet in this session (runtime-monitoring design exists in DESIGN.md §4; machinery in progress) — not claimed until its monitor runs silent on the unchanged tree"
